@@ -12,6 +12,7 @@ import Logrange.Generated.C10
 * `proj <s>` / `spec <s>`          → MODEL / SPEC content of the pipe partition copied from `s` (events)
 * `dest`                           → `<s>=<ev>` list in stored order
 * `quiescent`                      → `0|1`
+* `pipe`                           → `absent|live|deleted reg=<0|1>` (the registry and the registry file)
 * `cfg`                            → the configuration regenerated from the source
 -/
 open Go Logrange.PipeLts Driver
@@ -21,7 +22,11 @@ def cfgNow : Cfg :=
     dropOnCreate := Logrange.Generated.C10.createDropsCache
     dropOnDelete := Logrange.Generated.C10.deleteDropsCache
     applyFilter := Logrange.Generated.C10.filterAppliedBySourceIterator
-    rearm := Logrange.Generated.C10.workerDoneRearms }
+    rearm := Logrange.Generated.C10.workerDoneRearms
+    saveOnCreate := Logrange.Generated.C10.createSavesRegistry
+    saveOnDelete := Logrange.Generated.C10.deleteSavesRegistry
+    saveOnShutdown := Logrange.Generated.C10.shutdownSavesRegistry
+    startChecksPipe := Logrange.Generated.C10.startWorkerChecksPipeAlive }
 
 def isInfix (needle : Bytes) : Bytes → Bool
   | [] => needle.isEmpty
@@ -113,6 +118,7 @@ def handle (st : State) (toks : List String) : State × String :=
   | ["spec", s] => (st, showEvs (specProj st (nat s)))
   | ["dest"] => (st, if st.dest.isEmpty then "-" else " ".intercalate (st.dest.map (fun x => s!"{x.1}={showEv x.2}")))
   | ["quiescent"] => (st, b01 (quiescent st))
+  | ["pipe"] => (st, (match st.pipe with | .absent => "absent" | .live => "live" | .deleted => "deleted") ++ " reg=" ++ b01 st.reg)
   | ["cfg"] => (st, s!"chanCap={cfgNow.chanCap} dropOnCreate={b01 cfgNow.dropOnCreate} dropOnDelete={b01 cfgNow.dropOnDelete} applyFilter={b01 cfgNow.applyFilter} rearm={b01 cfgNow.rearm}")
   | _ => (st, "bad-op")
 
